@@ -85,8 +85,11 @@ coap_new_client_session_oscore_lkd(coap_context_t *ctx,
   coap_session_t *session =
       coap_new_client_session_lkd(ctx, local_if, server, proto);
 
-  if (!session)
+  if (!session) {
+    /* oscore_conf is always consumed, as it is when coap_oscore_initiate() fails */
+    coap_delete_oscore_conf(oscore_conf);
     return NULL;
+  }
 
   if (coap_oscore_initiate(session, oscore_conf) == 0) {
     coap_session_release_lkd(session);
@@ -123,8 +126,10 @@ coap_new_client_session_oscore_psk_lkd(coap_context_t *ctx,
   coap_lock_check_locked(ctx);
   session = coap_new_client_session_psk2_lkd(ctx, local_if, server, proto, psk_data);
 
-  if (!session)
+  if (!session) {
+    coap_delete_oscore_conf(oscore_conf);
     return NULL;
+  }
 
   if (coap_oscore_initiate(session, oscore_conf) == 0) {
     coap_session_release_lkd(session);
@@ -161,8 +166,10 @@ coap_new_client_session_oscore_pki_lkd(coap_context_t *ctx,
   coap_lock_check_locked(ctx);
   session = coap_new_client_session_pki_lkd(ctx, local_if, server, proto, pki_data);
 
-  if (!session)
+  if (!session) {
+    coap_delete_oscore_conf(oscore_conf);
     return NULL;
+  }
 
   if (coap_oscore_initiate(session, oscore_conf) == 0) {
     coap_session_release_lkd(session);
@@ -1804,6 +1811,8 @@ retry:
   case COAP_ENC_ASCII:
     value->u.value_bin =
         coap_new_bin_const((const uint8_t *)begin, end - begin);
+    if (value->u.value_bin == NULL)
+      goto bad_entry;
     break;
   case COAP_ENC_HEX:
     /* Parse the hex into binary */
@@ -1836,7 +1845,7 @@ bad_entry:
   coap_log_warn("oscore_conf: Unrecognized configuration entry '%.*s'\n",
                 (int)(end - begin),
                 begin);
-  return 0;
+  return -1;
 }
 
 #undef CONFIG_ENTRY
@@ -1925,10 +1934,17 @@ coap_parse_oscore_conf_mem(coap_str_const_t conf_mem) {
   oscore_conf->break_sender_key = 0;
   oscore_conf->break_recipient_key = 0;
 
-  while (end > start &&
-         get_split_entry(&start, end - start, &keyword, &value)) {
+  while (end > start) {
     size_t i;
     size_t j;
+    int entry = get_split_entry(&start, end - start, &keyword, &value);
+
+    if (entry == 0)
+      break;
+    if (entry < 0) {
+      /* Do not carry on with whatever was defined ahead of a broken entry */
+      goto error;
+    }
 
     for (i = 0; i < sizeof(oscore_config) / sizeof(oscore_config[0]); i++) {
       if (coap_string_equal(&oscore_config[i].str_keyword, &keyword) != 0 &&
